@@ -137,7 +137,11 @@ func main() {
 		}
 		p := strings.SplitN(kv, "=", 2)
 		target := p[1]
-		modelTable[ergoPath+"."+p[0]] = func(ex *Exec, c *callCtx) Value {
+		key := ergoPath + "." + p[0]
+		if strings.Contains(p[0], ".") {
+			key = p[0] // a library function, e.g. path/filepath.Clean, replaced by a harness-level model
+		}
+		modelTable[key] = func(ex *Exec, c *callCtx) Value {
 			fn := ex.pkg.Func(target)
 			if fn == nil {
 				panic(unsupported("summary function %s not found", target))
